@@ -509,8 +509,16 @@ func c02ScMaxConns(c *c02Ctx, e *c02Env, do c02Doer, rt *c02Route, n, k int, r *
 		c.violate(class+":gauge-over-limit", nil, nil, "route %s: %d handlers inside at once, MaxConns=%d", rt.Path, mx, n)
 		return false
 	}
-	// tokens must have been returned: n sequential requests are all admitted
-	for i := 0; i < n; i++ {
+	// tokens must have been returned, and the overload burst is over: only EXCESS
+	// requests may be turned away, so strictly sequential requests (nothing else in
+	// flight on this route, whose handlers only ever answered < 500) are all admitted —
+	// however many were rejected a moment ago
+	after := n
+	if k >= 20 && after < 15 {
+		after = 15
+	}
+	c.m.Count("maxconns_sequential_after_burst", int64(after))
+	for i := 0; i < after; i++ {
 		if !c02ScFast(c, e, do, rt, c02GenFast(r, false), class+":after-release") {
 			return false
 		}
